@@ -360,6 +360,32 @@ def r08_3_message_formats(ctx: Ctx) -> RuleResult:
 # ------------------------------------------------------------------------------------------- R08.4 value construction
 
 
+def _year_guarded(ctx: Ctx, f: Func | None) -> bool:
+    """Every static call of f (which packs a date with the ISO ordinal hard-coded) is dominated by a test that the bucket's
+    calendar is ISO and that the year lies between that calendar's min_year and max_year."""
+    if f is None:
+        return False
+    A = _analysis(ctx)
+    sites = A.callsites().get(id(f), [])
+    if not sites:
+        return False
+    for caller, call in sites:
+        fa = facts_at(call)
+        cal = next((l for (l, op, r) in fa if op == "==" and r == "CalendarSystem.iso"), None)
+        if cal is None:
+            return False
+        lo = any(l == f"{cal}.min_year" and op == "<=" and r.endswith("._year") for (l, op, r) in fa)
+        hi = any(l.endswith("._year") and op == "<=" and r == f"{cal}.max_year" for (l, op, r) in fa)
+        if not (lo and hi):
+            return False
+    return True
+
+
+EXPECTED_UNDECIDED_CONSTRUCT = {
+    "_LocalDatePatternParser._LocalDateParseBucket._calculate_value: packed month >= 1": "the month may come from the month-name index (>= 1 because the empty 0th name never matches) or the template value: relational, not an interval fact",
+}
+
+
 def _bucket_obj(ctx: Ctx, bucket_cls_name: str, parser: str, ranges: dict[tuple[str, str, str], Any], depth: int = 0) -> Obj:
     """Abstract bucket for a parser: constructor state joined with everything the parser's parse actions may store."""
     M = ctx.M
@@ -421,6 +447,13 @@ def r08_4_value_construction(ctx: Ctx) -> RuleResult:
     C = get_contracts(ctx)
     pres = {q for (q, _p) in C.pre}
     decided_sites = 0
+    from ..calendars import calculator_instances
+
+    INF = float("inf")
+    iso_ordinal = M.fold_class_const("_CalendarOrdinal", "ISO")
+    greg = next((ci for ci in calculator_instances(ctx) if ci.cls == "_GregorianYearMonthDayCalculator"), None)
+    if greg is None or not isinstance(iso_ordinal, int):
+        raise AnalysisError("Gregorian calculator instance / ISO ordinal not found")
     for pt in tables:
         if pt.bucket is None:
             raise AnalysisError(f"bucket class of {pt.parser.name} not found")
@@ -445,6 +478,15 @@ def r08_4_value_construction(ctx: Ctx) -> RuleResult:
                 for (q, p), b in C.pre.items():
                     if q == f.qual and p in bound:
                         checks.append(("pre", f"{f.qual}({p})", b, bound[p], chain, ctx.loc(fn, c)))
+            elif f.qual == "_YearMonthDayCalendar._ctor" and fn.mod.rel.startswith(TEXT) and "year" in bound:
+                # unvalidated packing of parsed fields: month/day start at 1 in every calendar; with the ISO ordinal hard-coded the
+                # year must be inside the ISO calendar's range and month/day inside the Gregorian maxima
+                co = bound.get("calendar_ordinal")
+                iso = co is not None and isinstance(co, Iv) and co.const and co.lo == iso_ordinal
+                checks.append(("ymd", f"{fn.qual}: packed month >= 1", (1, 12 if iso else INF), bound.get("month"), chain, ctx.loc(fn, c)))
+                checks.append(("ymd", f"{fn.qual}: packed day >= 1", (1, 31 if iso else INF), bound.get("day"), chain, ctx.loc(fn, c)))
+                if iso:
+                    checks.append(("ymd", f"{fn.qual}: packed ISO year", (greg.min_year, greg.max_year), bound.get("year"), chain, ctx.loc(fn, c)))
 
         I.on_call = on_call
         I.analyse(calc, self_obj=so)
@@ -467,9 +509,15 @@ def r08_4_value_construction(ctx: Ctx) -> RuleResult:
         for (kind, target), (status, v, b, chain, loc) in sorted(seen.items()):
             rr.inst()
             decided_sites += 1
-            calendar_dep = any(t in chain or t in target for t in ("CalendarSystem", "YearMonthDayCalculator", "_EraCalculator", "LocalDate", "LocalDateTime", "AnnualDate"))
+            site_fn = target.split(":")[0].split("(")[0]
+            sf = M.funcs.get(site_fn) or M.funcs.get(site_fn.rsplit(".", 1)[0])
+            calendar_dep = kind != "ymd" and (sf is None or not sf.mod.rel.startswith(TEXT)) and any(t in chain or t in target for t in ("CalendarSystem", "YearMonthDayCalculator", "_EraCalculator", "LocalDate.", "LocalDateTime.", "AnnualDate.", "_YearMonthDay"))
             if status == "PROVED":
                 rr.ok({"parser": pt.parser.name, "check": target, "value": repr(v), "bounds": [b[0], b[1]]})
+            elif kind == "ymd" and "ISO year" in target and _year_guarded(ctx, M.funcs.get(site_fn)):
+                rr.ok({"parser": pt.parser.name, "check": target, "guard": "every call is dominated by calendar == ISO and calendar.min_year <= year <= calendar.max_year"})
+            elif target in EXPECTED_UNDECIDED_CONSTRUCT:
+                rr.undecided.append(f"{pt.parser.name}: {target} = {v} ({EXPECTED_UNDECIDED_CONSTRUCT[target]})")
             elif calendar_dep:
                 rr.undecided.append(f"{pt.parser.name}: {target} = {v} (reached through a calendar object whose concrete class / state the prover does not know - not decided)")
             elif status == "REFUTED":
